@@ -109,6 +109,85 @@ def generate():
         return True
     fl, why = astlib.try_flag(clones)
     out.append("Definition amend_clones_first : bool := %s.%s" % (astlib.coq_bool(bool(fl)), "" if why is None else "  (* %s *)" % why))
+    def no_param_stores():
+        """no verb implementation stores into one of its parameters: scan every function of dyads.py / monads.py for
+        subscript stores, augmented assignments, del and in-place methods on a parameter name that has not been rebound to
+        a fresh copy before; dictionary branches (documented in-place updates) are exempt"""
+        INPLACE = {"sort", "fill", "put", "resize", "itemset", "append", "extend", "insert", "pop", "remove", "clear", "update",
+                   "reverse", "setfield", "partition", "setflags", "byteswap"}
+        FRESH = ("array", "copy", "tolist", "str_to_chr_arr", "list", "concatenate", "tile", "empty", "zeros", "deepcopy", "astype", "flatten")
+        offenders = []
+        for rel in ("klongpy/dyads.py", "klongpy/monads.py"):
+            m = astlib.module(rel)
+            for fn in ast.walk(m):
+                if not isinstance(fn, ast.FunctionDef) or isinstance(fn, ast.Lambda):
+                    continue
+                params = {a.arg for a in fn.args.args} - {"klong", "backend", "self"}
+                if not params:
+                    continue
+                # parameters rebound to a fresh object, with the line from which that holds
+                fresh_from = {}
+                for n in ast.walk(fn):
+                    if isinstance(n, ast.Assign) and len(n.targets) == 1 and isinstance(n.targets[0], ast.Name) and n.targets[0].id in params:
+                        v = n.value
+                        ok = False
+                        if isinstance(v, ast.Call):
+                            f = v.func
+                            nm = f.attr if isinstance(f, ast.Attribute) else getattr(f, "id", "")
+                            ok = nm in FRESH
+                        if isinstance(v, ast.IfExp):
+                            ok = all(isinstance(b, ast.Call) and (b.func.attr if isinstance(b.func, ast.Attribute) else getattr(b.func, "id", "")) in FRESH
+                                     for b in (v.body, v.orelse))
+                        if ok:
+                            fresh_from[n.targets[0].id] = min(fresh_from.get(n.targets[0].id, 10 ** 9), n.lineno)
+                        # a rebinding to something else (a view, another name) keeps the suspicion
+
+                def is_param(node, line):
+                    return isinstance(node, ast.Name) and node.id in params and not (node.id in fresh_from and line > fresh_from[node.id])
+
+                def visit(node, in_dict_branch):
+                    for ch in ast.iter_child_nodes(node):
+                        if isinstance(ch, (ast.FunctionDef, ast.Lambda)) and ch is not fn:
+                            continue
+                        if isinstance(ch, ast.If):
+                            t = ast.unparse(ch.test)
+                            d = in_dict_branch or "dict" in t
+                            for b in ch.body:
+                                visit_stmt(b, d)
+                            for b in ch.orelse:
+                                visit_stmt(b, in_dict_branch)
+                            continue
+                        visit_stmt(ch, in_dict_branch)
+
+                def visit_stmt(st, d):
+                    if not d:
+                        tg = []
+                        if isinstance(st, ast.Assign):
+                            tg = st.targets
+                        elif isinstance(st, ast.AugAssign):
+                            tg = [st.target]
+                            if is_param(st.target, st.lineno):
+                                offenders.append("%s:%s line %d: %s" % (rel, fn.name, st.lineno, ast.unparse(st)[:60]))
+                        elif isinstance(st, ast.Delete):
+                            tg = st.targets
+                        for t in tg:
+                            if isinstance(t, ast.Subscript) and is_param(t.value, st.lineno):
+                                offenders.append("%s:%s line %d: %s" % (rel, fn.name, st.lineno, ast.unparse(st)[:60]))
+                        for c in ast.walk(st) if not isinstance(st, (ast.If, ast.For, ast.While, ast.Try, ast.With)) else []:
+                            if isinstance(c, ast.Call):
+                                f = c.func
+                                if isinstance(f, ast.Attribute) and f.attr in INPLACE and is_param(f.value, st.lineno):
+                                    offenders.append("%s:%s line %d: %s" % (rel, fn.name, st.lineno, ast.unparse(c)[:60]))
+                                if isinstance(f, ast.Attribute) and f.attr in ("put", "copyto", "place", "putmask", "fill_diagonal") and c.args and is_param(c.args[0], st.lineno):
+                                    offenders.append("%s:%s line %d: %s" % (rel, fn.name, st.lineno, ast.unparse(c)[:60]))
+                    visit(st, d)
+                visit(fn, False)
+        if offenders:
+            raise ShapeError("stores into parameters: " + "; ".join(sorted(set(offenders))[:4]))
+        return True
+    fl, why = astlib.try_flag(no_param_stores)
+    out.append("Definition no_verb_stores_into_operands : bool := %s.%s" % (astlib.coq_bool(bool(fl)), "" if why is None else "  (* %s *)" % why.replace("*)", "* )")))
+
     def parse_key():
         m = astlib.module("klongpy/interpreter.py")
         cls = astlib.find_class(m, "KlongInterpreter")
@@ -275,15 +354,53 @@ def load_copy(A):
     B._module = A._module
     return B
 
+def fcanon(v, depth=0):
+    # like canon, but a function is its whole syntax tree: literals inside function bodies are part of the variable state
+    from klongpy.core import KGOp, KGCond
+    if depth > 40:
+        return ["deep"]
+    if isinstance(v, KGLambda):
+        return ["py", getattr(v.fn, "__name__", "?")]
+    if isinstance(v, KGFn):
+        args = ["none"] if v.args is None else (["args"] + [fcanon(a, depth + 1) for a in v.args]) if isinstance(v.args, list) else ["arg", fcanon(v.args, depth + 1)]
+        return ["fn", type(v).__name__, int(v.arity) if isinstance(v.arity, (int, np.integer)) else str(v.arity), fcanon(v.a, depth + 1), args]
+    if isinstance(v, KGOp):
+        return ["op", "".join("%%02x" %% b for b in str(v.a).encode()), int(v.arity)]
+    if isinstance(v, KGAdverb):
+        return ["adv", fcanon(v.a, depth + 1) if not isinstance(v.a, str) else "".join("%%02x" %% b for b in v.a.encode()), int(v.arity)]
+    if isinstance(v, KGCond):
+        return ["q"] + [fcanon(a, depth + 1) for a in v]
+    if isinstance(v, list):
+        return ["p"] + [fcanon(a, depth + 1) for a in v]
+    if isinstance(v, np.ndarray) and v.dtype == object:
+        return ["l"] + [fcanon(a, depth + 1) for a in v]
+    if isinstance(v, dict):
+        items = [[fcanon(a, depth + 1), fcanon(b, depth + 1)] for a, b in v.items()]
+        items.sort(key=repr)
+        return ["d"] + items
+    return canon(v)
+
 def csnap(k):
     out = []
     for d in user_frames(k):
-        out.append([type(d).__name__ + ":" + str(getattr(d, 'name', ''))] + sorted([str(key), sx(canon(val))] for key, val in d.items()))
+        out.append([type(d).__name__ + ":" + str(getattr(d, 'name', ''))] + sorted([str(key), sx(fcanon(val))] for key, val in d.items()))
     return {"frames": out, "module": str(k._module)}
+
+def modes():
+    # process-wide state that every interpreter of the process shares
+    import warnings, locale, decimal, random, hashlib, os
+    return {"numpy.geterr": repr(sorted(np.geterr().items())),
+            "numpy.printoptions": repr(sorted((a, repr(b)) for a, b in np.get_printoptions().items())),
+            "warnings.filters": hashlib.sha1(repr(warnings.filters).encode()).hexdigest(),
+            "locale": repr(locale.getlocale()), "decimal": repr(decimal.getcontext()),
+            "random": hashlib.sha1(repr(random.getstate()).encode()).hexdigest(),
+            "numpy.random": hashlib.sha1(repr(np.random.get_state()).encode()).hexdigest(),
+            "recursionlimit": sys.getrecursionlimit(), "cwd": os.getcwd(),
+            "environ": hashlib.sha1(repr(sorted(os.environ.items())).encode()).hexdigest()}
 
 def run_stmt(k, text):
     try:
-        return sx(canon(k(text)))
+        return sx(fcanon(k(text)))
     except RecursionError:
         return "RECURSION"
     except Exception as e:
@@ -299,8 +416,14 @@ def experiment(stmts):
         B = load_copy(A)
         rec["preB"] = csnap(B)
         rec["pre"] = pre
+        m0 = modes()
         rec["rA"] = run_stmt(A, text)
+        m1 = modes()
+        rec["modes_changed"] = {k_: (m0[k_], m1[k_]) for k_ in m0 if m0[k_] != m1[k_]}
         rec["rB"] = run_stmt(B, text)
+        m2 = modes()
+        if m2 != m1:
+            rec["modes_changed"].update({k_: (m1[k_], m2[k_]) for k_ in m1 if m1[k_] != m2[k_]})
         rec["postA"] = csnap(A)
         rec["postB"] = csnap(B)
         try:
@@ -380,7 +503,17 @@ POOL_DICT = ['f3::{:{[1 2]}}', 'dd::f3()', 'dd,[3 4]', 'f3()', 'dd', 'ee::dd', '
 POOL_MIX = ['k::{,x=y}', 'k(1;2)', 'k([1 2];[1 3])', 'k([[1] 2];[[1] 2])', 'k([[1] 2];[[1] 3])', 'k(a;a)', 'a::[[1] 2]', 'a::[[1] [2 3]]',
             'k2::{(x<y),z}', 'k2(1;2;3)', 'k2([[1] 2];[[3] 4];0)', 'k3::{#,/x<y}', 'k3(1;2)', 'k3([[1] 2];[[3] 4])', 'k4::{,x*a}', 'k4(2)', 'k4([[1] 2])',
             'a::3', 'a::[1 2]']
-POOLS = [POOL_DATA, POOL_VIEW, POOL_AMEND, POOL_FN, POOL_EXPR, POOL_OBJ, POOL_RED, POOL_DICT, POOL_MIX]
+# a representative set of the other verbs, on variables, views of variables, literals in function bodies and repeated texts
+POOL_VERBS = ['s::[-1 2]', 'd::s:^!10', 'd::s:^!6', 's', 'h5::{[-1 2]:^x}', 'h5(!10)', 'h5(!6)', 't2::[2 -1]', 'd::t2:^!8', 'u::[-1 2 7]', 'd::(2#u):^!12', 'u',
+              'a::[3 1 2 4]', 'a::[1 2 3 4 5 6]', 'b::[0 2 1 3]', 'c::1_a', 'c::|a', 'm::[[1 2] [3 4]]', 'st::"hello world"',
+              'd::1:+a', 'd::(-1):+c', 'd::2:#a', 'd::2:#c', 'd::2:_a', 'd::[1 2]:_c', 'd::a,b', 'd::c,1', 'd::a?3', 'd::st?"o"', 'd::<a', 'd::>c', 'd::=a', 'd::=st',
+              'd::+m', 'd::&b', 'd::?a', 'd::?st', 'd::a^2', 'd::c^b', 'd::^m', 'd::!3', 'd::_a', 'd::*c', 'd::~b', 'd::a|b', 'd::a&b', 'd::a!2', 'd::a%2', 'd::a:%2',
+              'd::a~b', 'd::#c', 'd::$a', 'd::,a', 'd::-c', 'd::%a', 'd::m:@[0 1]', 'd:::#65', 'd::[2 2]:^a', 'd::[2 -1]:^c', 'd::a=b', 'd::a<b', 'd::a>b', 'd::a+b', 'd::a-b', 'd::a*b',
+              'g5::{<[3 1 2]}', 'g5()', 'g6::{[1 2 3]:+x}', 'g6(1)', 'g6(2)', 'g7::{(x):^[1 2 3 4 5 6]}', 'g7([-1 2])', 'g7([2 -1])', 'a', 'b', 'c', 'm']
+# statements that overflow or fail inside numeric code, followed by overflowing array arithmetic
+POOL_NUM = ['2^5000', '[2 3]^5000', 'w::10.0^[1 400]', '{x^y}(7;1000)', '"a"^2', '1%0', 'v::[1.0e308 2.0 -1.5e308]', 'v*10', 'v+v', '*/v', '+/v', 'v^2', 'v%0',
+            '1.0e308*10', '2^0.5', '(-1)^0.5', '_1.0e100', 'v-v', 'w']
+POOLS = [POOL_DATA, POOL_VIEW, POOL_AMEND, POOL_FN, POOL_EXPR, POOL_OBJ, POOL_RED, POOL_DICT, POOL_MIX, POOL_VERBS, POOL_VERBS, POOL_NUM]
 
 DIRECTED = [
     ['f::{1,x*y}', 'f(2;3)', 'f("ab";3)'],
@@ -396,6 +529,8 @@ DIRECTED = [
     ['f::{[1 2 3]}', 'c::f()', 'd::c:=9,0', 'f()'],
     ['a::[]', '+/a', 'a::[1 2]', '+/a', 'a::[]', '+/a'],
     ['avg::{(+/x)%#x}', 'avg([1 2 3])', 'avg([])'],
+    ['s::[-1 2]', 'd::s:^!10', 's', 'd::s:^!6', 'h5::{[-1 2]:^x}', 'h5(!10)', 'h5(!6)', 't2::[2 -1]', 'd::t2:^!8', 't2::[2 -1]', 'u::[-1 2 7]', 'd::(2#u):^!12', 'u'],
+    ['v::[1.0e308 2.0 -1.5e308]', 'v*10', '2^5000', 'v*10', '"a"^2', 'v+v', '*/v', '{x^y}(7;1000)', 'v*10'],
     ['k::{,x=y}', 'k(1;2)', 'k([[1] 2];[[1] 2])', 'k([[1] 2];[[1] 3])'],
     ['k2::{(x<y),z}', 'k2(1;2;3)', 'k2([[1] 2];[[3] 4];0)', 'a::2', 'k4::{,x*a}', 'k4(3)', 'a::[[1] 2]', 'k4(3)', 'k4([[1] 2])'],
     ['sm::{,+/a}', 'a::[1 2 3]', 'sm()', 'a::[]', 'sm()', 'a::[7 8]', 'a::2_a', 'sm()'],
@@ -528,6 +663,11 @@ def property_oracle(chk, seq, recs, kind, bad_props):
             chk.count("skipped_unloadable_state")
             return
         switch = r["text"].lstrip().startswith(".module")
+        if r.get("modes_changed"):
+            bad_props.append({"kind": "statement %d `%s` changed process-wide state shared by every interpreter (later evaluations of any text can differ): %s" % (
+                i, r["text"], str(r["modes_changed"])[:300]), "family": kind, "statements": seq, "at": i,
+                "results_A": [x["rA"][:80] for x in recs], "results_B": [x["rB"][:80] for x in recs]})
+            return
         if r["rA"] != r["rB"]:
             what = "result depends on history: statement %d `%s` gives %s after the history and %s in a fresh interpreter with the same variables" % (
                 i, r["text"], r["rA"][:80], r["rB"][:80])
